@@ -114,7 +114,8 @@ def transpile_token(
                 if after_char == "`":
                     temp += "`"
                 else:
-                    temp += "\\" + after_char
+                    # a lone backslash at the very end stands for itself
+                    temp += "\\" + (after_char or "\\")
             elif char == '"':
                 temp += '\\"'
             elif char == "\n":
